@@ -174,6 +174,76 @@ func runR19_2(c *Ctx, r *R) {
 		if n == 0 {
 			r.Unk(fnKey(f)+"/connect", f.Pos(), "anchor lost: conn() does not call connect()")
 		}
+		// (d) the connection set is looked at again under the lock before the client declares itself
+		// disconnected and dials: a caller that found nothing on the lock-free fast path may have been overtaken by
+		// the connect routine (which registers the connection under client.mu)
+		k := 0
+		for _, call := range callsIn(f, false) {
+			o := calleeObj(call)
+			isDial := o != nil && objName(o) == "client.connect"
+			isUnset := isFieldCall(call, "connected_", "Unset")
+			if !isDial && !isUnset {
+				continue
+			}
+			k++
+			key := fmt.Sprintf("%s/recheck-conns#%d", fnKey(f), k)
+			rrMiss := func(cd Cond) bool {
+				v, truth := cd.V, cd.Truth
+				for {
+					un, isNot := v.(*ssa.UnOp)
+					if !isNot || un.Op != token.NOT {
+						break
+					}
+					v, truth = un.X, !truth
+				}
+				ex, ok := v.(*ssa.Extract)
+				if !ok || truth {
+					return false
+				}
+				rc, ok := ex.Tuple.(*ssa.Call)
+				if !ok {
+					return false
+				}
+				ro := calleeObj(rc)
+				return ro != nil && ro.Name() == "roundRobin"
+			}
+			good := false
+			for _, cd := range pathConds(call.Block()) {
+				if rrMiss(cd) {
+					if ex, ok := stripNot(cd.V).(*ssa.Extract); ok {
+						if rc, ok := ex.Tuple.(*ssa.Call); ok && la.protectedAt(f, rc) {
+							good = true
+						}
+					}
+				}
+				if hc, idx := resultOfCall(stripNot(cd.V)); hc != nil && la.protectedAt(f, hc) {
+					truth := cd.Truth
+					if stripNot(cd.V) != cd.V {
+						truth = !truth
+					}
+					if h := hc.Call.StaticCallee(); h != nil && h.Blocks != nil && (h.Pkg == f.Pkg || h.Parent() == f) && helperExcludes(h, idx, truth, rrMiss) {
+						good = true
+					}
+				}
+			}
+			if good {
+				r.OK(key, call.Pos(), "the connection set was re-read under client.mu and found empty")
+			} else if isDial {
+				r.Bad(key, call.Pos(), "conn() dials without looking at the connection set again under client.mu: a caller overtaken by the connect routine starts a second dial - a second connection is added without regard to the configured maximum")
+			} else {
+				r.Bad(key, call.Pos(), "conn() clears Connected without looking at the connection set again under client.mu: a caller overtaken by the connect routine marks a client with a live connection as disconnected (Connected false / Disconnected true for the rest of that connection's life)")
+			}
+		}
+	}
+}
+
+func stripNot(v ssa.Value) ssa.Value {
+	for {
+		un, ok := v.(*ssa.UnOp)
+		if !ok || un.Op != token.NOT {
+			return v
+		}
+		v = un.X
 	}
 }
 
